@@ -43,7 +43,7 @@ pub struct Plan {
     pub hash_seed: String,
     /// shim rules, e.g. `write:out.rs:0:ENOSPC`
     pub rules: Vec<String>,
-    /// pass | fail | nonutf8 | missing | killed | killedpartial
+    /// pass | fail | nonutf8 | missing | killed | killedpartial | real (the real rustfmt, thorough tier only)
     pub rustfmt: String,
 }
 
@@ -200,6 +200,10 @@ pub struct World {
     shim: PathBuf,
     stub_dir: PathBuf,
     empty_dir: PathBuf,
+    /// directory holding (a link to) the real rustfmt, if one was given (thorough tier)
+    real_dir: Option<PathBuf>,
+    /// what the real rustfmt makes of a text (None: it refuses it), memoised
+    real_fmt: Mutex<BTreeMap<u64, Option<String>>>,
     simfs: PathBuf,
     /// fnv(enum source) -> fault-free stdout of `logos-cli in.rs` (None: the CLI failed without any fault)
     expected: Mutex<BTreeMap<u64, Option<String>>>,
@@ -222,7 +226,12 @@ impl World {
         let _ = std::fs::remove_file(&logp);
         let mut cmd = Command::new(&self.cli);
         cmd.current_dir(dir).args(args).env_clear();
-        cmd.env("PATH", if plan.rustfmt == "missing" { &self.empty_dir } else { &self.stub_dir });
+        let path_dir: &Path = match plan.rustfmt.as_str() {
+            "missing" => &self.empty_dir,
+            "real" => self.real_dir.as_deref().unwrap_or(&self.stub_dir),
+            _ => &self.stub_dir,
+        };
+        cmd.env("PATH", path_dir);
         cmd.env("LD_PRELOAD", &self.shim);
         cmd.env("VERIF_TRACK", dir.as_os_str());
         cmd.env("VERIF_SHIM_LOG", &logp);
@@ -267,6 +276,32 @@ impl World {
             None
         };
         self.expected.lock().unwrap().insert(key, v.clone());
+        v
+    }
+
+    /// What a healthy `--format` run produces from `text` with the formatter this plan selects; None if the real
+    /// rustfmt refuses the text (then nothing can be said about such a step).
+    fn formatted(&self, text: &str, plan: &Plan) -> Option<String> {
+        if plan.rustfmt != "real" || self.real_dir.is_none() {
+            return Some(pretty::pretty(text));
+        }
+        let key = fnv1a(text.as_bytes());
+        if let Some(v) = self.real_fmt.lock().unwrap().get(&key) {
+            return v.clone();
+        }
+        let exe = self.real_dir.as_ref().unwrap().join("rustfmt");
+        let v = (|| {
+            use std::io::Write;
+            let mut child = Command::new(exe).stdin(Stdio::piped()).stdout(Stdio::piped()).stderr(Stdio::null()).spawn().ok()?;
+            let mut stdin = child.stdin.take()?;
+            let data = text.as_bytes().to_vec();
+            let writer = std::thread::spawn(move || { let _ = stdin.write_all(&data); });
+            let out = child.wait_with_output().ok()?;
+            let _ = writer.join();
+            if !out.status.success() { return None; }
+            String::from_utf8(out.stdout).ok()
+        })();
+        self.real_fmt.lock().unwrap().insert(key, v.clone());
         v
     }
 
@@ -348,7 +383,7 @@ fn model_equal(file: &[u8], expected: &str) -> bool {
 }
 
 fn hard_rules(plan: &Plan, fmt: bool) -> bool {
-    plan.rules.iter().any(|r| r.contains(":EIO") || r.contains(":ENOSPC") || r.contains(":EACCES")) || (fmt && plan.rustfmt != "pass")
+    plan.rules.iter().any(|r| r.contains(":EIO") || r.contains(":ENOSPC") || r.contains(":EACCES")) || (fmt && plan.rustfmt != "pass" && plan.rustfmt != "real")
 }
 
 fn count_faults(log: &[String], stats: &mut Stats) {
@@ -582,7 +617,8 @@ fn exec_in(world: &World, sc: &Scenario, dir: &Path, stats: &mut Stats) -> Optio
                 count_faults(&inv.log, stats);
                 if let Some(l) = touched_out(&inv.log) { fail!("K4-writes", stepno, "stdout mode touched the output file: {l}"); }
                 let hard = hard_rules(plan, *fmt);
-                let expected = if *fmt { pretty::pretty(&expected) } else { expected };
+                if *fmt && plan.rustfmt == "real" { stats.hit("op_format_through_the_real_rustfmt"); }
+                let expected = if *fmt { match world.formatted(&expected, plan) { Some(e) => e, None => { stats.hit("real_rustfmt_refused_the_output"); continue; } } } else { expected };
                 let want = format!("{expected}\n");
                 if inv.code == 0 && inv.stdout != want.as_bytes() {
                     let at = inv.stdout.iter().zip(want.as_bytes()).position(|(a, b)| a != b).unwrap_or(inv.stdout.len().min(want.len()));
@@ -599,7 +635,8 @@ fn exec_in(world: &World, sc: &Scenario, dir: &Path, stats: &mut Stats) -> Optio
                 if let Some((o, w)) = world.content_verdict(&d) { fail!(o, stepno, "{}", w); }
                 let args = cli_args(style, dir, true, false, *fmt);
                 let args: Vec<&str> = args.iter().map(|a| a.as_str()).collect();
-                let expected = if *fmt { pretty::pretty(&expected) } else { expected };
+                if *fmt && plan.rustfmt == "real" { stats.hit("op_format_through_the_real_rustfmt"); }
+                let expected = if *fmt { match world.formatted(&expected, plan) { Some(e) => e, None => { stats.hit("real_rustfmt_refused_the_output"); continue; } } } else { expected };
                 let before = FileState::read(&outp);
                 let inv = world.invoke(dir, &args, plan);
                 stats.invocations += 1;
@@ -630,7 +667,8 @@ fn exec_in(world: &World, sc: &Scenario, dir: &Path, stats: &mut Stats) -> Optio
                 let before = FileState::read(&outp);
                 let args = cli_args(style, dir, true, true, *fmt);
                 let args: Vec<&str> = args.iter().map(|a| a.as_str()).collect();
-                let expected = if *fmt { pretty::pretty(&expected) } else { expected };
+                if *fmt && plan.rustfmt == "real" { stats.hit("op_format_through_the_real_rustfmt"); }
+                let expected = if *fmt { match world.formatted(&expected, plan) { Some(e) => e, None => { stats.hit("real_rustfmt_refused_the_output"); continue; } } } else { expected };
                 let inv = world.invoke(dir, &args, plan);
                 stats.invocations += 1;
                 stats.hit(if *fmt { "op_check_format" } else { "op_check" });
@@ -668,6 +706,9 @@ fn exec_in(world: &World, sc: &Scenario, dir: &Path, stats: &mut Stats) -> Optio
 // ---------------------------------------------------------------------------------------------
 // Workload generation
 // ---------------------------------------------------------------------------------------------
+
+/// set when a real rustfmt is available (thorough tier): some --format steps then use it instead of the stub
+static REAL_RUSTFMT: std::sync::atomic::AtomicBool = std::sync::atomic::AtomicBool::new(false);
 
 fn gen_plan(rng: &mut Rng, kind: u8, faults: bool) -> Plan {
     // kind: 0 write, 1 check, 2 print
@@ -707,6 +748,8 @@ fn gen_plan(rng: &mut Rng, kind: u8, faults: bool) -> Plan {
         }
         if rng.chance(1, 4) {
             rustfmt = rng.pick(&["fail", "nonutf8", "missing", "killed", "killedpartial"]).to_string();
+        } else if REAL_RUSTFMT.load(std::sync::atomic::Ordering::Relaxed) && rng.chance(1, 3) {
+            rustfmt = "real".to_string();
         }
     }
     Plan { hash_seed, rules, rustfmt }
@@ -855,8 +898,21 @@ fn main() {
     std::fs::copy(&stub, stub_dir.join("rustfmt")).expect("install rustfmt stub");
     // initialise logos-codegen's lazy statics on a throw-away thread (see hash-sim::warm_up)
     let _ = reference_generate(r#"#[derive(Logos)] #[logos(subpattern x = "a.")] enum W { #[regex("(?&x)+")] A, #[regex(".", priority = 0)] B }"#);
-    let world = World { check_content: mode != "c16", undecidable: std::sync::atomic::AtomicU64::new(0), cli, shim, stub_dir: stub_dir.clone(), empty_dir: empty_dir.clone(), simfs: simfs.clone(), expected: Mutex::new(BTreeMap::new()), content: Mutex::new(BTreeMap::new()) };
-    let cleanup = || { let _ = std::fs::remove_dir_all(&stub_dir); let _ = std::fs::remove_dir_all(&empty_dir); };
+    let real_dir = match args.get("real-rustfmt") {
+        Some(p) if Path::new(p).exists() => {
+            let d = simfs.join(format!("realpath-{}", std::process::id()));
+            std::fs::create_dir_all(&d).expect("simfs");
+            let _ = std::fs::remove_file(d.join("rustfmt"));
+            std::os::unix::fs::symlink(p, d.join("rustfmt")).expect("link real rustfmt");
+            // the mode is always available for replays; only `--use-real-rustfmt` (thorough tier) lets the scheduler pick it
+            REAL_RUSTFMT.store(args.flag("use-real-rustfmt"), std::sync::atomic::Ordering::Relaxed);
+            Some(d)
+        }
+        _ => None,
+    };
+    let real_dir_cleanup = real_dir.clone();
+    let world = World { real_dir, real_fmt: Mutex::new(BTreeMap::new()), check_content: mode != "c16", undecidable: std::sync::atomic::AtomicU64::new(0), cli, shim, stub_dir: stub_dir.clone(), empty_dir: empty_dir.clone(), simfs: simfs.clone(), expected: Mutex::new(BTreeMap::new()), content: Mutex::new(BTreeMap::new()) };
+    let cleanup = || { let _ = std::fs::remove_dir_all(&stub_dir); let _ = std::fs::remove_dir_all(&empty_dir); if let Some(d) = &real_dir_cleanup { let _ = std::fs::remove_dir_all(d); } };
 
     if let Some(path) = args.get("replay") {
         let v = read_json(path);
